@@ -777,7 +777,7 @@ func (r *srcRun) checkAdvertised(which string, src flagger) {
 			r.add("C12", which, "no flag --%s is registered for leaf %d (%s)", name, l.ID, l.Kind)
 			continue
 		}
-		dv, _, _ := leafValue(l.Kind, l.ID+500) // what fillDefaults put into the template
+		dv, _, _ := leafValue(l.Kind, l.ID+r.defaultOffset()) // what fillDefaults put into the template
 		var elems []string
 		switch l.Kind {
 		case "time":
@@ -812,6 +812,15 @@ func (r *srcRun) checkAdvertised(which string, src flagger) {
 	}
 }
 
+// defaultOffset: the template's defaults differ from every supplied value, except in one case out of three, where a flag is
+// given explicitly with the very value the template holds (it must still count as given)
+func (r *srcRun) defaultOffset() int {
+	if r.c.Seed%3 == 0 {
+		return 0
+	}
+	return 500
+}
+
 // fillDefaults gives every leaf of the flag template a non-zero default that differs from any supplied value
 func (r *srcRun) fillDefaults(fs []srcField, v reflect.Value) {
 	for i, f := range fs {
@@ -824,7 +833,7 @@ func (r *srcRun) fillDefaults(fs []srcField, v reflect.Value) {
 			r.fillDefaults(f.Sub, fv)
 			continue
 		}
-		dv, _, _ := leafValue(f.Kind, f.ID+500)
+		dv, _, _ := leafValue(f.Kind, f.ID+r.defaultOffset())
 		if fv.Kind() == reflect.Ptr && dv.Kind() != reflect.Ptr {
 			p := reflect.New(dv.Type())
 			p.Elem().Set(dv)
@@ -1129,9 +1138,11 @@ func shapeDiff(o, t reflect.Type, path string) string {
 // the bare transformer: an empty translated value reverses to an entirely unset original
 func (r *srcRun) runEmptyReverse() {
 	chains := map[string][]transform.Mangler{
-		"alias+flatten":  {transform.NewAliasMangler("dials", "dialsflag"), transform.DefaultFlattenMangler()},
-		"alias+setslice": {transform.NewAliasMangler("dials"), &transform.SetSliceMangler{}},
-		"stringcast":     {transform.DefaultFlattenMangler(), &transform.StringCastingMangler{}},
+		"alias+flatten":              {transform.NewAliasMangler("dials", "dialsflag"), transform.DefaultFlattenMangler()},
+		"alias+setslice":             {transform.NewAliasMangler("dials"), &transform.SetSliceMangler{}},
+		"stringcast":                 {transform.DefaultFlattenMangler(), &transform.StringCastingMangler{}},
+		"anonflatten":                {&transform.AnonymousFlattenMangler{}},
+		"anonflatten+alias+setslice": {&transform.AnonymousFlattenMangler{}, transform.NewAliasMangler("dials"), &transform.SetSliceMangler{}},
 	}
 	for name, ms := range chains {
 		name, ms := name, ms
